@@ -192,13 +192,18 @@ def conditions(tier):
     full = tier != 'quick'
     for p in range(len(PREFIXES)):
         for sx in range(len(SUFFIXES)):
+          for first in (range(NL + 1) if full else (None,)):
             fixed = {'prefix': p, 'suffix': sx}
             if not full:
                 fixed['l3'] = NL
+            else:
+                fixed['l1'] = first     # thorough: 3 free lines, partitioned by the first
             cs.append(Cond(
-                f'load_p{p}_s{sx}', specialise(k_load, **fixed),
+                f'load_p{p}_s{sx}' + ('' if first is None else f'_l{first}'),
+                specialise(k_load, **fixed),
                 specialise(k_load_pre, **fixed), timeout=900 if full else 300,
-                group='load', twin=((p in (3, 4) and sx in (1, 2)) or (p == 5 and sx == 3)),
+                group='load', twin=(((p in (3, 4) and sx in (1, 2)) or (p == 5 and sx == 3))
+                                    and first in (None, NL)),
                 descr='real ManifestFile.load on: canonical prefix driving the parser into '
                       f'state "{PREFIXES[p][1]}" + {3 if full else 2} lines chosen '
                       f'symbolically from {NL} line classes (armor lines exact/truncated/'
